@@ -321,7 +321,10 @@ impl Expression for Op {
                 let td = TypeDef::float();
 
                 // Division is infallible if the rhs is a literal normal float or integer.
-                match self.rhs.resolve_constant(&state) {
+                let rhs_value = self.rhs.resolve_constant(&state);
+                // the rhs always runs: its effects are part of the resulting state
+                let _rhs_def = self.rhs.apply_type_info(&mut state);
+                match rhs_value {
                     Some(value) if lhs_def.is_float() || lhs_def.is_integer() => match value {
                         // the division itself cannot fail, the lhs still can
                         Value::Float(v) if v.is_normal() => {
